@@ -142,6 +142,7 @@ static void run_seq_body(const Plan &p, World &w, Ctx &x, const SeqOpts &so) {
         for (size_t i = 0; i < ops.size(); i++) {
             x.cur_op = (int)i; x.cur_opname = w.opnames()[ops[i].k];
             std::unique_ptr<Model> before;
+            x.trace_prefix = x.trace;
             Op op2 = ops[i];
             { Bookkeeping bk; w.sut_prepare(op2); }
             const Op &op = op2;
@@ -353,7 +354,7 @@ static void run_threads_body(const Plan &p, World &w, Ctx &x, RunOut &out, bool 
 
 // ------------------------------------------------------------------ top level
 static void finish(const Plan &p, World &w, Ctx &x, RunOut &out) {
-    out.failed = x.failed; out.v = x.v; out.collateral = x.collateral; out.trace = x.trace;
+    out.failed = x.failed; out.v = x.v; out.collateral = x.collateral; out.trace = (x.failed && x.trace_prefix) ? x.trace_prefix : x.trace;
     uint64_t sh = 0;
     auto it = x.st.c.find("_schedhash");
     if (it != x.st.c.end()) { sh = it->second; x.st.c.erase(it); }
